@@ -339,10 +339,16 @@ def build(repo, canary=False, arities=None):
     return A
 
 
+# assumed contract of iter() for clients (GEN: move_new_to_old); the function is an iterator-adapter chain outside Verus,
+# its order/duplicate-freeness/completeness is bounded-checked by the native sweep of this unit
+C_ITER = ('it', '''requires self.wf(),
+        ensures it.obeys_prophetic_iter_laws(), it.will_return_none(), it.decrease() is Some,
+            forall|t: Seq<u32>| #![trigger self@.contains(t)] self@.contains(t) <==> (exists|i: int| 0 <= i < it.remaining().len() && #[trigger] it.remaining()[i]@ == t),''')
+
 CLIENT_CONTRACTS = {'new': C_NEW, 'insert': C_INSERT, 'contains': C_CONTAINS, 'remove': C_REMOVE, 'is_empty': C_IS_EMPTY, 'clear': C_CLEAR}
 
 
-def declarations(A, repo, arities):
+def declarations(A, repo, arities, with_iter=False):
     """contract-only declarations of PrefixTreeN for client units (GEN): same contract text as proved above"""
     from units.wbapi import declaration
     src = Source(os.path.join(repo, FILE))
@@ -358,4 +364,7 @@ def declarations(A, repo, arities):
             it, _ = src.fn_in_impls(r'impl PrefixTree%d\s*\{' % n, nm, fn)
             it.pattern_params()
             A.text(declaration(it, c[0], c[1]), 'contract-only declaration of %s::%s' % (nm, fn))
+        if with_iter:
+            it, _ = src.fn_in_impls(r'impl PrefixTree%d\s*\{' % n, nm, 'iter')
+            A.text(declaration(it, C_ITER[0], C_ITER[1], body='{ Vec::<[u32; %d]>::new().into_iter() }' % n), 'ASSUMED contract of %s::iter (bounded-checked only)' % nm)
         A.text('}\n', 'impl close')
